@@ -214,7 +214,7 @@ func run(src, kind string, e *env) (res result) {
 		}
 		return object.Nil
 	})
-	opts := []risor.Option{risor.WithoutDefaultGlobals(), risor.WithGlobals(g)}
+	opts := []risor.Option{risor.WithoutDefaultGlobals(), risor.WithGlobals(g), risor.WithConcurrency()}
 	switch kind {
 	case "local":
 		opts = append(opts, risor.WithLocalImporter(e.dir))
@@ -803,6 +803,11 @@ var letters = []letter{
 		}
 		return s + "fa = " + f + "()"
 	}},
+	{"import b inside a spawned thread that is waited for", func(m *model, pos int) string {
+		// one evaluation, one module b: the thread's import loads it for everybody (or finds it loaded)
+		m.load("b")
+		return "spawn(func() {\n\timport b\n\treturn b.getx()\n}).wait()"
+	}},
 	{`from "a" import setx as aset, getx as agetx`, func(m *model, pos int) string {
 		m.load("a")
 		m.bind("aset", bind{"fn", "a", "setx"})
@@ -1009,7 +1014,11 @@ func seqNames(seq []int) []string {
 
 // judgeB compares one evaluation with the model.
 func judgeB(col *collector, idx int, c caseB, sc script, res result) (bad []string, tickKey string) {
+	threaded := strings.Contains(fmt.Sprint(seqNames(c.Seq)), "spawned thread")
 	rep := func(sig, what, observed, expected string) {
+		if threaded {
+			sig += ":import-in-a-thread" // a history with an import inside a spawned thread: told apart from the single-threaded ones
+		}
 		bad = append(bad, sig)
 		if col != nil {
 			col.add(idx, sig, fmt.Sprintf("%s importer, imports %v: %s", c.Importer, seqNames(c.Seq), what), c, observed, expected)
